@@ -1,9 +1,16 @@
 (* Model/Checkers.v — result checkers: boolean functions over exact rationals and interval
    enclosures whose [true] is proved (Theory/CertT.v) to imply a statement about every point
    of a continuum. *)
-From Coq Require Import ZArith QArith List Bool.
+From Coq Require Import ZArith QArith Qabs List Bool.
 From PyqspV Require Import Base.Ops Base.IntervalZ Base.TrigZ Model.LPolyM Model.LAlgM Model.QInst Model.ConvM Model.ResponseM.
 Import ListNotations.
+
+Fixpoint qlist_eqb_exact (a b : list Q) : bool :=
+  match a, b with
+  | [], [] => true
+  | x :: a, y :: b => Qeq_bool x y && qlist_eqb_exact a b
+  | _, _ => false
+  end.
 
 Definition lpQ2I (p : lpoly Q) : lpoly I := LP (lp_dmin p) (map iofQ (lp_coefs p)) (lp_isz p).
 
@@ -135,3 +142,21 @@ Definition resp_dists (wz mx : bool) (phis : list Q) (pts : list (Q * (Q * Q))) 
                      | Some e => Some (resp_dist e (fst (snd p)) (snd (snd p)))
                      | None => None end
                 else None) pts.
+
+(* ---- C04: completion.  Everything in exact rational arithmetic on the returned floats:
+   the identity part is F itself on powers -n..n, the X part has the same shape, and every
+   coefficient of F F~ + G G~ - 1 is below tol in magnitude. *)
+Fixpoint all_abs_lt (l : list Q) (tol : Q) : bool :=
+  match l with [] => true | x :: l => Qltb (Qabs x) tol && all_abs_lt l tol end.
+Definition unit_residual (F G : lpoly Q) : option (lpoly Q) :=
+  do s <- lp_add OpsQ (lp_mul OpsQ F (lp_inv OpsQ F)) (lp_mul OpsQ G (lp_inv OpsQ G));
+  lp_sub OpsQ s (lp_Id OpsQ).
+Definition shape_ok (n : Z) (p : lpoly Q) : bool :=
+  negb (lp_isz p) && (lp_dmin p =? - n)%Z && (len (lp_coefs p) =? n + 1)%Z.
+Definition check_completion (Fin : list Q) (g : lalg Q) (tol : Q) : bool :=
+  let n := (len Fin - 1)%Z in
+  shape_ok n (la_I g) && shape_ok n (la_X g) && qlist_eqb_exact (lp_coefs (la_I g)) Fin &&
+  match unit_residual (la_I g) (la_X g) with
+  | Some r => all_abs_lt (lp_coefs r) tol
+  | None => false
+  end.
